@@ -3,7 +3,10 @@
 From Coq Require Import ZArith List Bool Sorted.
 From Bluge Require Import Base.Int64 Base.NumBits Base.Res Gen.ParamsNumeric Search.Numeric Search.NumericProofs
   Search.NumericPrefix Search.NumericSplit Search.NumericEnum Search.NumericRange Search.NumericBin
-  Search.NumericExamples.
+  Search.NumericExamples Search.NumericFloat Search.NumericSource Search.NumericSourceProofs Search.NumericPipeline.
+From Coq Require Import SpecFloat Rdefinitions.
+From Flocq Require IEEE754.Binary IEEE754.Bits.
+Import Flocq.IEEE754.Binary Flocq.IEEE754.Bits.
 Import ListNotations.
 Open Scope Z_scope.
 
@@ -27,6 +30,43 @@ Print Assumptions f2i_order.
 Theorem f2i_zero_adjacent : f2i two63 = -1 /\ f2i 0 = 0.
 Proof. exact f2i_zeros. Qed.
 Print Assumptions f2i_zero_adjacent.
+
+(* link to IEEE-754 as formalised by Flocq (stretch goal; these four theorems depend on the axioms of
+   Coq's classical real numbers used throughout Flocq, the last one also on Coq's axiomatised
+   specification of primitive floats -- see the Print Assumptions output): for finite patterns that
+   are not both zeros, the binary64 comparison / the order of the denoted real numbers / the
+   hardware `<` is the order of the sortable integers *)
+Theorem f2i_order_flocq : forall a b, in_uint64 a -> in_uint64 b -> finite a -> finite b ->
+  ~ (is_zero_pattern a /\ is_zero_pattern b) ->
+  Bcompare 53 1024 (b64_of_bits a) (b64_of_bits b) = Some (Z.compare (f2i a) (f2i b)).
+Proof. exact f2i_order_flocq_all. Qed.
+Print Assumptions f2i_order_flocq.
+
+(* -0 and +0: equal for IEEE, adjacent (f2i_zero_adjacent) for the encoding *)
+Theorem f2i_order_flocq_both_zero : forall a b, in_uint64 a -> in_uint64 b ->
+  is_zero_pattern a -> is_zero_pattern b ->
+  Bcompare 53 1024 (b64_of_bits a) (b64_of_bits b) = Some Eq.
+Proof. exact f2i_order_flocq_zeros. Qed.
+Print Assumptions f2i_order_flocq_both_zero.
+
+Theorem float_lt_is_real_order : forall a b, in_uint64 a -> in_uint64 b -> finite a -> finite b ->
+  ~ (is_zero_pattern a /\ is_zero_pattern b) ->
+  (float_lt a b <-> (B2R 53 1024 (b64_of_bits a) < B2R 53 1024 (b64_of_bits b))%R).
+Proof. exact float_lt_real_all. Qed.
+Print Assumptions float_lt_is_real_order.
+
+Theorem f2i_order_primfloat : forall a b, in_uint64 a -> in_uint64 b -> finite a -> finite b ->
+  ~ (is_zero_pattern a /\ is_zero_pattern b) ->
+  PrimFloat.ltb (prim_of_bits a) (prim_of_bits b) = (f2i a <? f2i b).
+Proof. exact f2i_order_prim_all. Qed.
+Print Assumptions f2i_order_primfloat.
+
+Example f2i_order_flocq_example :
+  in_uint64 bits_1_5 /\ in_uint64 bits_3_0 /\ finite bits_1_5 /\ finite bits_3_0 /\
+  ~ (is_zero_pattern bits_1_5 /\ is_zero_pattern bits_3_0) /\
+  Z.compare (f2i bits_1_5) (f2i bits_3_0) = Lt.
+Proof. exact ex_f2i_order_flocq. Qed.
+Print Assumptions f2i_order_flocq_example.
 
 (* ---------- prefix coding (numeric/prefix_coded.go) ---------- *)
 
@@ -89,6 +129,13 @@ Theorem valid_prefix_coded_exact_refuted :
   exists p, valid_prefix_coded p = (true, 0) /\ forall v s, prefix_coded v s <> Some p.
 Proof. exact valid_prefix_coded_exact_refuted_all. Qed.
 Print Assumptions valid_prefix_coded_exact_refuted.
+
+(* the bytes after the header of every term are 7-bit digits (so the byte strings with a byte >= 0x80
+   that Enumerate walks through are never terms of a numeric field) *)
+Theorem prefix_coded_bytes_7bit : forall v s p,
+  prefix_coded v s = Some p -> Forall (fun d => 0 <= d < 128) (tl p).
+Proof. exact prefix_coded_7bit. Qed.
+Print Assumptions prefix_coded_bytes_7bit.
 
 Example valid_prefix_coded_example :
   exists p, prefix_coded 77 8 = Some p /\ valid_prefix_coded p = (true, 8) /\ length p = 9%nat.
@@ -156,7 +203,7 @@ Print Assumptions split_exact_example.
 Theorem enumerate_spec : forall fuel r dict ts,
   wf_bytes (tr_start r) -> wf_bytes (tr_end r) -> length (tr_start r) = length (tr_end r) ->
   enumerate_range fuel r dict = Ok ts ->
-  ts = filter dict (between (tr_start r) (tr_end r)) /\
+  ts = filter dict (strings_between (tr_start r) (tr_end r)) /\
   (forall t, In t ts <-> length t = length (tr_start r) /\ wf_bytes t /\
                          bytes_le (tr_start r) t = true /\ bytes_le t (tr_end r) = true /\ dict t = true) /\
   StronglySorted (fun a b => bytes_lt a b = true) ts /\
@@ -220,6 +267,33 @@ Example numeric_range_exact_example :
 Proof. exact ex_numeric_range. Qed.
 Print Assumptions numeric_range_exact_example.
 
+(* the executable pipeline that the correspondence cases run against the implementation
+   (range_bounds ; split_range ; enumerate_ranges over the dictionary ; doc_matches) coincides with
+   the declarative matching above: whenever the enumeration finishes (Ok, i.e. no OutOfFuel = no
+   D8 blow-up), a document whose tokens the dictionary contains is matched iff it is in the interval *)
+Theorem range_pipeline_exact : forall lo hi fuel dict terms v, in_int64 lo -> in_int64 hi -> in_int64 v ->
+  (forall t, In t (index_tokens v numeric_precision_step) -> dict t = true) ->
+  (rs <- split_range lo hi query_precision_step ;; enumerate_ranges fuel rs dict) = Ok terms ->
+  (doc_matches terms v = true <-> lo <= v <= hi).
+Proof. exact range_pipeline_exact_all. Qed.
+Print Assumptions range_pipeline_exact.
+
+Theorem numeric_pipeline_exact : forall lo hi il ih dict terms x,
+  in_uint64 lo -> in_uint64 hi -> in_uint64 x -> finite x ->
+  (forall t, In t (index_tokens (f2i x) numeric_precision_step) -> dict t = true) ->
+  numeric_range_terms lo hi il ih dict = Ok terms ->
+  (doc_matches terms (f2i x) = true <-> lower_ok lo il x /\ upper_ok hi ih x).
+Proof. exact numeric_pipeline_exact_all. Qed.
+Print Assumptions numeric_pipeline_exact.
+
+Example numeric_pipeline_exact_example :
+  exists terms, numeric_range_terms 0x3FF8000000000000 0x4024000000000000 true false ex_dict = Ok terms /\
+                length terms = 1%nat /\
+                doc_matches terms (f2i 0x4008000000000000) = true /\
+                doc_matches terms (f2i 0xC000000000000000) = false.
+Proof. exact ex_numeric_pipeline. Qed.
+Print Assumptions numeric_pipeline_exact_example.
+
 (* the guard observed: exclusive min at the pattern 0x7fffffffffffffff (sortable MaxInt64) still
    selects that value *)
 Theorem range_guard_max_is_inclusive :
@@ -258,6 +332,27 @@ Theorem date_range_inf_alias_refuted :
     covered rs v /\ b < v.
 Proof. exact date_range_inf_alias_refuted_all. Qed.
 Print Assumptions date_range_inf_alias_refuted.
+
+(* ---------- numeric sorting (search/source.go FieldSource.Value / Numbers, search/sort.go:62) ---------- *)
+
+(* the terms of a value are produced in dictionary (bytewise) order, the shift-0 term first *)
+Theorem index_tokens_in_dictionary_order : forall v, in_int64 v ->
+  StronglySorted (fun a b => bytes_lt a b = true) (index_tokens v numeric_precision_step).
+Proof. exact index_tokens_sorted. Qed.
+Print Assumptions index_tokens_in_dictionary_order.
+
+(* over the doc values of a numeric field the sort key is the shift-0 term; bytes.Compare of two
+   sort keys is the comparison of the sortable integers = the float order (-0 below +0);
+   Numbers returns exactly the stored value *)
+Theorem numeric_sort_exact : forall x y, in_uint64 x -> in_uint64 y ->
+  exists kx ky,
+    source_value (index_tokens (f2i x) numeric_precision_step) = Some kx /\
+    source_value (index_tokens (f2i y) numeric_precision_step) = Some ky /\
+    bytes_cmp kx ky = Z.compare (f2i x) (f2i y) /\
+    (bytes_lt kx ky = true <-> float_lt x y) /\
+    source_numbers (index_tokens (f2i x) numeric_precision_step) = [x].
+Proof. exact numeric_sort_exact_all. Qed.
+Print Assumptions numeric_sort_exact.
 
 (* ---------- numeric/bin.go ---------- *)
 
